@@ -187,6 +187,18 @@ def strategy_nets(rng):
     n.points["P"].give_z = True
     station(n, "F0", dirs=("F1", "P"), sdists=("P",)); station(n, "F2", dirs=("F3", "P"), sdists=("P",))
     yield finish(n, "steep-slope-known-heights")
+    # the same with one stand-point only: direction + slope distance is then the only determining combination
+    # (nothing to out-vote a wrong reduction of the slope distance to the horizontal)
+    n = base(3)
+    d0 = math.hypot(n.points["P"].E - n.points["F0"].E, n.points["P"].N - n.points["F0"].N)
+    n.points["P"].H = n.points["F0"].H + float(rng.choice([-1, 1])) * float(rng.uniform(0.08, 0.25)) * d0
+    n.points["P"].give_z = True
+    station(n, "F0", dirs=("F1", "P"), sdists=("P",))
+    if rng.uniform() < 0.5:
+        n.points["P"].z = "fixed"
+    else:
+        cl = netgen.Cluster("hdiff"); cl.obs.append(netgen.Obs("dh", "F0", "P", stdev=2.0)); n.clusters.append(cl)
+    yield finish(n, "steep-slope-polar-known-heights")
     n = base(3)
     cl = netgen.Cluster("vectors")
     for f in ("F0", "F1"):
